@@ -42,7 +42,7 @@ def gen_config(rng, max_vials=30, max_steps=900, cn=False):
     cfg = dict(arr=arr, shape=shape, k=k, dt=float(dt), T_init=T_init, over=over,
                initIce=rng.choice(["indirect", "direct"]), seed=rng.randint(0, 10 ** 6), seed_v=rng.randint(0, 10 ** 6),
                prog=dict(start=start, end=end, rate=rate, holds=holds, t_tot=float(round(t_tot, 1)), dt=float(dt)),
-               cnTemp=None, thr=rng.choice([0.9, 0.9, 0.5, 0.95]))
+               cnTemp=None, thr=rng.choice([0.9, 0.9, 0.5, 0.95, 0.05, 0.12]))
     if cn:
         lo = max(end, -25)
         cfg["cnTemp"] = rng.choice([h["temp"] for h in holds] + [round(rng.uniform(lo, min(start, -2)), 1)]) if rng.random() < 0.7 or not holds \
